@@ -108,8 +108,8 @@ def main():
                 add(cid, scr + "\n".join(extra[:6]) + "\nSOLVE EXACT P\nACCESS\n", "driver-outcomes+rejected")
         # 3. long primal phase I: an equality LP with more rows than the eta file holds updates (100), so the basis is
         #    refactored while phase I is still running (work vectors of the phase are re-created on that path)
-        for bi in range(3 if ck.thorough() else 1):
-            m_, n_ = 170 + 20 * bi, 340 + 40 * bi
+        for bi, m_ in enumerate((240, 280, 320, 360, 420, 500) if ck.thorough() else (260, 300, 360)):
+            n_ = 2 * m_
             x0 = [ck.rng.randint(1, 3) for _ in range(n_)]
             rows_ = []
             for i in range(m_):
